@@ -76,6 +76,9 @@ def cases(rng, tier):
         out.append({"a": a, "dtype": "int64", "derived": {"t": "concat", "b": [a[-1]] + [rng.randrange(3) for _ in range(rng.randint(0, 3))], "extra": rng.choice([0, 0, 1, 2, 3])}})
         # float operands with the SAME run boundaries whose sum is NaN in some runs (inf + -inf) and a number in others
         out.append({"a": a, "dtype": rng.choice(["float64", "float32"]), "derived": {"t": "binop", "b": [1 if c == 0 else 0 if c == 1 else 2 for c in a], "f": rng.choice(["add", "add", "multiply", "maximum"])}})
+        # a stepped / reversed slice OF A DERIVED array (a scalar ufunc or a concatenation keeps its operand's run boundaries, so the
+        # source of the slice already holds equal neighbours): the slice is promised in joined form all the same
+        out.append({"a": a, "dtype": "int64", "derived": {"t": "chain", "pre": rng.choice(["halve", "zero", "gt", "concat"]), "s": [None, None, rng.choice([2, -1, -2, 3])]}})
         # a ufunc of two operands DERIVED FROM THE SAME array (they share their run boundaries): (x > 0) & (x < 2), x - x, ...
         out.append({"a": a, "dtype": "int64", "derived": {"t": "same", "f": rng.choice(["and_cmp", "sub_self", "mul_shift", "max_neg"])}})
     for _ in range(300 if tier == "quick" else 3000):
@@ -131,6 +134,17 @@ def _same_source(f, x):
     return np.maximum(-x, x - 2)
 
 
+def _chain_pre(pre, x, np_):
+    """the same value-level derivation on a RunLengthArray or on the dense array"""
+    if pre == "halve":
+        return x // 2
+    if pre == "zero":
+        return x * 0
+    if pre == "gt":
+        return x > 1
+    return np_.concatenate([x, x])
+
+
 def _derived(p, arr):
     """(numpy result on the dense array, is the joined form promised?)"""
     d = p["derived"]
@@ -139,6 +153,8 @@ def _derived(p, arr):
         return arr[sl], d["s"][2] not in (None, 1)
     if d["t"] == "same":
         return _same_source(d["f"], arr), True
+    if d["t"] == "chain":
+        return _chain_pre(d["pre"], arr, np)[slice(*d["s"])], True
     other = rlgen.to_values(d["b"], p["dtype"], _dmode(p))
     if d["t"] == "binop":
         with np.errstate(all="ignore"):
@@ -159,6 +175,9 @@ def _run_derived(p):
         elif d["t"] == "same":
             with np.errstate(all="ignore"):
                 res = _same_source(d["f"], r)
+        elif d["t"] == "chain":
+            with np.errstate(all="ignore"):
+                res = _chain_pre(d["pre"], r, np)[slice(*d["s"])]
         else:
             other = RunLengthArray.from_array(rlgen.to_values(d["b"], p["dtype"], _dmode(p)))
             with np.errstate(all="ignore"):
